@@ -473,7 +473,9 @@ def raised_in_harness(exc) -> bool:
     while tb.tb_next is not None:
         tb = tb.tb_next
     fn = _os.path.realpath(tb.tb_frame.f_code.co_filename)
-    return fn.startswith(_HARNESS_ROOT + _os.sep)
+    # (compiled extensions report source names relative to their build directory - "src/lxml/etree.pyx" - which resolve
+    # against the current directory: only a file that exists under the harness root is harness code)
+    return fn.startswith(_HARNESS_ROOT + _os.sep) and _os.path.isfile(fn)
 
 
 def library_exception(exc):
